@@ -171,6 +171,7 @@ pub fn exec(s: &Script, st: &mut Stats) -> Result<RunInfo, Violation> {
                 clause_prefix: "C19",
                 snap,
                 adler_probe: false,
+                post_done: false,
             };
             let base = run_core(&m, &mk(None), &s.ops, st)?;
             hh.u(base.hash);
